@@ -9,6 +9,7 @@ package main
 
 import (
 	"bytes"
+	"context"
 	"encoding/json"
 	"fmt"
 	"os"
@@ -18,6 +19,7 @@ import (
 	"sort"
 	"strconv"
 	"strings"
+	"time"
 
 	"ggvh/internal/gen"
 	"ggvh/internal/mdl"
@@ -120,13 +122,18 @@ func runStandaloneAt(bin, cwd, dir string, args []string, env []string, patterns
 	if len(patterns) == 0 {
 		patterns = []string{"./..."}
 	}
-	cmd := exec.Command(bin, append(append([]string{"-json"}, args...), patterns...)...)
+	ctx, cancel := context.WithTimeout(context.Background(), binTimeout)
+	defer cancel()
+	cmd := exec.CommandContext(ctx, bin, append(append([]string{"-json"}, args...), patterns...)...)
 	cmd.Dir = cwd
 	cmd.Env = cleanEnv(env...)
 	var so, se bytes.Buffer
 	cmd.Stdout, cmd.Stderr = &so, &se
 	err := cmd.Run()
 	r := binRun{stdout: so.String(), stderr: se.String()}
+	if ctx.Err() != nil {
+		r.stderr += fmt.Sprintf("\nTIMEOUT: the tool did not terminate within %s (killed)\n", binTimeout)
+	}
 	if ee, ok := err.(*exec.ExitError); ok {
 		r.exit = ee.ExitCode()
 	} else if err != nil {
@@ -140,13 +147,18 @@ func runVet(bin, dir string, args []string, env []string, patterns ...string) bi
 	if len(patterns) == 0 {
 		patterns = []string{"./..."}
 	}
-	cmd := exec.Command("go", append(append([]string{"vet", "-json", "-vettool=" + bin}, args...), patterns...)...)
+	ctx, cancel := context.WithTimeout(context.Background(), binTimeout)
+	defer cancel()
+	cmd := exec.CommandContext(ctx, "go", append(append([]string{"vet", "-json", "-vettool=" + bin}, args...), patterns...)...)
 	cmd.Dir = dir
 	cmd.Env = cleanEnv(env...)
 	var so, se bytes.Buffer
 	cmd.Stdout, cmd.Stderr = &so, &se
 	err := cmd.Run()
 	r := binRun{stdout: so.String(), stderr: se.String()}
+	if ctx.Err() != nil {
+		r.stderr += fmt.Sprintf("\nTIMEOUT: go vet with the tool did not terminate within %s (killed)\n", binTimeout)
+	}
 	if ee, ok := err.(*exec.ExitError); ok {
 		r.exit = ee.ExitCode()
 	} else if err != nil {
@@ -193,7 +205,13 @@ func genModule(dir string, r *rng.R, n int, mk func(i int) gen.Options) []genSpe
 	return specs
 }
 
+// binTimeout bounds one run of the tool over a generated module (normal runs take seconds)
+var binTimeout = 5 * time.Minute
+
 func crashed(r binRun) string {
+	if i := strings.Index(r.stderr, "TIMEOUT:"); i >= 0 {
+		return r.stderr[i:min(len(r.stderr), i+200)]
+	}
 	if strings.Contains(r.stderr, "panic:") || strings.Contains(r.stderr, "internal error") || strings.Contains(r.stderr, "goroutine ") {
 		i := strings.Index(r.stderr, "panic:")
 		if i < 0 {
@@ -218,6 +236,10 @@ func corrBin(o corrOpts) *res.Summary {
 		return sum
 	}
 	r := rng.New(o.seed ^ 0xB1A)
+	binTimeout = 2 * time.Minute
+	if o.tier == "thorough" {
+		binTimeout = 15 * time.Minute
+	}
 	switch mode {
 	case "drivers":
 		binDrivers(o, sum, r, bin)
@@ -231,6 +253,8 @@ func corrBin(o corrOpts) *res.Summary {
 		binCrash(o, sum, r, bin)
 	case "corpus":
 		binCorpus(o, sum, r, bin)
+	case "excludedir":
+		binExcludeDir(o, sum, r, bin)
 	default:
 		sum.Notes = append(sum.Notes, "unknown mode "+mode)
 	}
@@ -522,11 +546,15 @@ func binExclude(o corrOpts, sum *res.Summary, r *rng.R, bin string) {
 		// spelling: random case and spacing
 		var parts []string
 		for _, t := range S {
-			switch r.Intn(3) {
+			switch r.Intn(5) {
 			case 0:
 				t = strings.ToLower(t)
 			case 1:
 				t = " " + t + " "
+			case 2:
+				t = "\t" + t
+			case 3:
+				t = t + rng.Pick(r, []string{"\n", "\r\n", " \t", "\f", "\v"})
 			}
 			parts = append(parts, t)
 		}
@@ -945,6 +973,39 @@ func binCrash(o corrOpts, sum *res.Summary, r *rng.R, bin string) {
 	genModule(dir, r, n, func(i int) gen.Options {
 		return gen.Options{Ignores: true, TestFiles: i%2 == 0, NearMiss: i%3 == 0, Spelling: []int{0, 1, 3, 4}[i%4]}
 	})
+	// legal but unusual declarations next to annotated code: self-referential types, used as explicit types of
+	// variables, fields, parameters and results, as receivers, in literals and conversions
+	for i := 0; i < n; i += 3 {
+		root := fmt.Sprintf("k%d", i)
+		ents, _ := os.ReadDir(filepath.Join(dir, root))
+		for _, e := range ents {
+			if !e.IsDir() || !strings.HasPrefix(e.Name(), "u") {
+				continue
+			}
+			sub, _ := os.ReadDir(filepath.Join(dir, root, e.Name()))
+			for _, se := range sub {
+				if !se.IsDir() {
+					continue
+				}
+				pdir := filepath.Join(dir, root, e.Name(), se.Name())
+				// package name from an existing file
+				name := ""
+				if b, err := os.ReadFile(filepath.Join(pdir, "f0.go")); err == nil {
+					for _, l := range strings.Split(string(b), "\n") {
+						if strings.HasPrefix(l, "package ") {
+							name = strings.TrimSpace(strings.TrimPrefix(l, "package "))
+							break
+						}
+					}
+				}
+				if name == "" {
+					continue
+				}
+				os.WriteFile(filepath.Join(pdir, "exotic.go"), []byte("package "+name+exoticDecls), 0o644)
+				sum.Count("exotic-declarations")
+			}
+		}
+	}
 	for _, v := range []struct {
 		name string
 		vet  bool
@@ -967,12 +1028,15 @@ func binCrash(o corrOpts, sum *res.Summary, r *rng.R, bin string) {
 		sum.Sample(fmt.Sprintf("%s: exit %d, %d diagnostics", v.name, rn.exit, len(rn.diags)), 4)
 		if c := crashed(rn); c != "" {
 			sum.Disagree(res.Disagreement{Kind: "panic", Input: fmt.Sprintf("crash seed=%d %s", o.seed, v.name), Impl: c, Model: "diagnostics status", Clause: "C10: the tool exits with its diagnostics status rather than a crash"})
+			if strings.HasPrefix(c, "TIMEOUT") {
+				break // one hang is the finding; the other drivers would only wait as long again
+			}
 		} else if rn.exit != 0 && !v.vet {
 			// -json mode exits 0; anything else is a failure of the tool
 			sum.Disagree(res.Disagreement{Kind: "panic", Input: fmt.Sprintf("crash seed=%d %s", o.seed, v.name), Impl: fmt.Sprintf("exit %d: %s", rn.exit, rn.stderr[:min(300, len(rn.stderr))]), Model: "exit 0 in -json mode", Clause: "C10"})
 		}
 	}
-	sum.Rule = "both drivers x {default, scan-tests} on generated programs (package-level initialisers first in files, //line directives, @ignore in all placements, near-miss comments, test and excluded files, all spellings) plus the witness corpus; a panic / internal error / analyzer error / abnormal exit is a violation; non-trivial = run with diagnostics"
+	sum.Rule = "both drivers x {default, scan-tests} on generated programs (package-level initialisers first in files, //line directives, @ignore in all placements, near-miss comments, test and excluded files, all spellings) plus the witness corpus and self-referential / generic declarations (type Ring *Ring, Loop []Loop, …) used as explicit types; every run has a time limit; a hang / panic / internal error / analyzer error / abnormal exit is a violation; non-trivial = run with diagnostics"
 }
 
 // ---------------------------------------------------------------- C09 (corpus part)
@@ -1039,4 +1103,139 @@ func verifDir() string {
 		return v
 	}
 	return "/verif"
+}
+
+const exoticDecls = `
+
+type Ring *Ring
+
+type Loop []Loop
+
+type FnRec func(FnRec) FnRec
+
+type ChanRec chan ChanRec
+
+type MapRec map[string]MapRec
+
+type PtrPtr **PtrPtr
+
+type Node struct {
+	Next *Node
+	Kids []*Node
+	Back map[*Node]*Node
+	Ring Ring
+}
+
+type Gen[T any] struct{ V T }
+
+type GenRec[T any] struct{ Next *GenRec[T] }
+
+func (g *Gen[T]) Set(v T) { g.V = v }
+
+var ringVar Ring
+
+var loopVar Loop = Loop{nil, Loop{}}
+
+var _ = struct {
+	R Ring
+	L Loop
+	P PtrPtr
+}{}
+
+func useExotic(q Ring, l Loop, f FnRec, c ChanRec) (Ring, MapRec, PtrPtr) {
+	var x Ring
+	var n Node
+	n.Next = &Node{}
+	n.Next.Kids = append(n.Next.Kids, &n)
+	n.Ring = x
+	g := &Gen[*Node]{}
+	g.Set(&n)
+	g.V.Next = nil
+	gr := GenRec[Ring]{}
+	gr.Next = &gr
+	_ = new(Ring)
+	_ = Loop(nil)
+	_ = []Ring{nil}
+	_ = map[Ring]Loop{}
+	var iface interface{ M(Ring) Loop }
+	_ = iface
+	return x, MapRec{"a": nil}, nil
+}
+`
+
+// ---------------------------------------------------------------- C14 (the real binary, exclude-paths spellings)
+// An exclude-paths entry is a substring of the file's path: "k3/d0/", "/k3/d0/" and "<module dir>/k3/d0/" name the
+// same files of the module, whatever the working directory of the tool. Under each: no diagnostic inside the
+// directory, and the same diagnostics everywhere else.
+func binExcludeDir(o corrOpts, sum *res.Summary, r *rng.R, bin string) {
+	n := 6
+	if o.tier == "thorough" {
+		n = 40
+	}
+	dir := scratchDir("exdir")
+	defer os.RemoveAll(dir)
+	genModule(dir, r, n, func(i int) gen.Options { return gen.Options{Ignores: i%2 == 0, TestFiles: i%3 == 0} })
+	abs, _ := filepath.Abs(dir)
+	if real, err := filepath.EvalSymlinks(abs); err == nil {
+		abs = real
+	}
+	for i := 0; i < n; i++ {
+		tok := fmt.Sprintf("k%d/d0", i)
+		if _, err := os.Stat(filepath.Join(dir, tok)); err != nil {
+			continue
+		}
+		if ents, _ := os.ReadDir(filepath.Join(dir, tok)); len(ents) == 1 && ents[0].IsDir() {
+			tok += "/" + ents[0].Name() // d0/model
+		}
+		pat := "./" + fmt.Sprintf("k%d", i) + "/..."
+		var ref []string
+		for vi, v := range []struct{ name, entry, cwd string }{
+			{"plain", tok + "/", dir},
+			{"leading-separator", "/" + tok + "/", dir},
+			{"absolute", abs + "/" + tok + "/", dir},
+			{"plain, started inside the program", tok + "/", filepath.Join(dir, fmt.Sprintf("k%d", i))},
+			{"leading-separator, started inside the excluded directory", "/" + tok + "/", filepath.Join(dir, tok)},
+		} {
+			p := pat
+			if v.cwd != dir {
+				p = "exp/" + fmt.Sprintf("k%d", i) + "/..."
+			}
+			how := "flag"
+			var rn binRun
+			if (vi+i)%2 == 0 {
+				rn = runStandaloneAt(bin, v.cwd, dir, []string{"-config.exclude-paths=" + v.entry}, nil, p)
+			} else {
+				how = "env"
+				rn = runStandaloneAt(bin, v.cwd, dir, nil, []string{"GOGREEMENT_EXCLUDE_PATHS=" + v.entry}, p)
+			}
+			sum.Evaluations++
+			sum.Count("entry-" + strings.Fields(v.name)[0])
+			if c := crashed(rn); c != "" {
+				sum.Disagree(res.Disagreement{Kind: "panic", Input: fmt.Sprintf("excludedir seed=%d %s exclude-paths=%q (%s)", o.seed, v.name, v.entry, how), Impl: c, Clause: "C10"})
+				continue
+			}
+			keys := runKeys(rn, func(d binDiag) bool { return !strings.HasSuffix(d.File, "_test.go") })
+			for _, k := range keys {
+				if strings.HasPrefix(k, tok+"/") {
+					sum.Disagree(res.Disagreement{Kind: "impl-vs-spec", Input: fmt.Sprintf("excludedir seed=%d %s exclude-paths=%q (%s) cwd=%s", o.seed, v.name, v.entry, how, strings.TrimPrefix(v.cwd, dir)), Impl: k, Model: "no diagnostic in a file whose path contains the entry",
+						Clause: "C14: no diagnostic is ever located in a file excluded by configuration (GGV.Props.C14.no_diag_in_excluded)"})
+					break
+				}
+			}
+			if vi == 0 {
+				ref = keys
+				if len(keys) > 0 {
+					sum.DistinctNontrivial++
+				}
+				continue
+			}
+			a, b := diffSets(ref, keys)
+			if len(a)+len(b) > 0 {
+				sum.Disagree(res.Disagreement{Kind: "impl-vs-spec", Input: fmt.Sprintf("excludedir seed=%d %s exclude-paths=%q (%s) cwd=%s", o.seed, v.name, v.entry, how, strings.TrimPrefix(v.cwd, dir)), Impl: fmt.Sprintf("%d diagnostics", len(keys)), Model: fmt.Sprintf("%d diagnostics (entry %q)", len(ref), tok+"/"),
+					Clause:  "C14: excluded = the path contains an exclude-paths entry (GGV.Props.C14.shouldSkip_char); the entries name the same files",
+					Details: fmt.Sprintf("only under the plain entry: %v; only under this one: %v", a[:min(len(a), 4)], b[:min(len(b), 4)])})
+			}
+		}
+	}
+	sum.Rule = "the real binary on generated programs with an exclude-paths entry naming a declaring package's directory, spelled plain (k/d0/), with a leading separator, and as an absolute path, by flag and by environment, started in the module root, inside the program and inside the excluded directory; no diagnostic inside the directory, identical diagnostics elsewhere; non-trivial = programs with diagnostics outside the excluded directory"
 }
